@@ -56,7 +56,18 @@ Definition is_active (s : sst) : bool :=
 (* per-node configuration: HAConfig.NodeID and the SRGConfig of the group.
    c_nifs = number of configured interfaces that resolve (interface k has sw_if_index k) *)
 Record cfg := mkCfg {
-  c_id : list N; c_prio : Z; c_preempt : bool; c_dec : Z; c_nifs : nat }.
+  c_id : list N; c_prio : Z; c_preempt : bool; c_dec : Z; c_nifs : nat;
+  (* what the implementation makes of the effective priority, as a function of the down count, OUTSIDE the
+     domain in which 32-bit arithmetic cannot overflow ([cfg_smallb] false: priority >= 2^31 or
+     decrement * #interfaces >= 2^31).  The property does not constrain those values (config validation
+     keeps priorities in 1..255), so the model takes them from the implementation; every theorem quantifies
+     over all [cfg], hence over every such function. *)
+  c_over : Z -> Z }.
+
+(* the configuration cannot overflow the int32 arithmetic of handleInterfaceEvent / AdjustPriority *)
+Definition cfg_smallb (c : cfg) : bool :=
+  (0 <=? c_prio c) && (c_prio c <? 2147483648) && (0 <=? c_dec c)
+  && (c_dec c * Z.of_nat (c_nifs c) <? 2147483648).
 
 (* SRGStateMachine fields + the Manager fields that belong to the group *)
 Record node := mkNode {
@@ -146,11 +157,17 @@ Definition tracker_promote (n : node) : node * list trans :=
 (* Go int32(x) of an integer: two's complement wrap *)
 Definition i32 (z : Z) : Z := (z + 2147483648) mod 4294967296 - 2147483648.
 
-(* AdjustPriority(delta) *)
+(* AdjustPriority(delta): the int32 computation of /repo inside the no-overflow domain; outside it the value
+   is the implementation's choice for the current down count *)
 Definition adjust_priority (c : cfg) (n : node) (delta : Z) : node :=
   let base := i32 (c_prio c) in
   let newp := i32 (base + delta) in
-  set_eff n (if newp <? 0 then 0 else newp).
+  set_eff n (if cfg_smallb c then (if newp <? 0 then 0 else newp) else c_over c (n_cnt n)).
+
+(* /repo d2827a3 as an instance of [c_over]: the wrapped int32 computation *)
+Definition over_int32 (prio dec : Z) (cnt : Z) : Z :=
+  let newp := i32 (i32 prio + i32 (i32 (- i32 dec) * i32 cnt)) in
+  if newp <? 0 then 0 else newp.
 
 (* PeerHeartbeatUpdate *)
 Definition hb_update (v : variant) (c : cfg) (n : node) (p : Z) (peerid : list N) (ps : sst)
